@@ -383,3 +383,127 @@ Definition run_step (hostmod : N) (rs : list region) (s : step) : list region * 
   | SCopy ri ch rj doff dlen =>
       let out := run_copy rs ri ch rj doff dlen in (apply_effs rs (o_effs out), out)
   end.
+
+(* ================================================================== ROOT accessors and the region layer
+   (add-only; worker w6).  Everything above starts a derivation chain from region.as_volatile_slice()
+   = get_slice(0, len).  The other ways the crate hands out a FIRST accessor of a region:
+
+     RMapSlice o n   MmapRegion::get_slice(o, n)  (VolatileMemory impl, src/mmap/unix.rs:402-425; xen.rs:366-393):
+                     compute_end_offset(o, n)?  (checked add, `> self.len()` -> OutOfBounds), pointer addr + o,
+                     bitmap view self.bitmap.slice_at(o)   [B::slice_at(o) = BaseSlice::new(bitmap, o)]
+     RRegSlice o n   GuestRegionMmap::get_slice(MemoryRegionAddress(o), n)   src/mmap/mod.rs:350-357:
+                     self.mapping.get_slice(o as usize, n)
+     RMapRef o sz    MmapRegion::get_ref::<T>(o)          VolatileMemory default, volatile_memory.rs:128-149:
+                     get_slice(o, size_of T), the slice's bitmap moved into the VolatileRef
+     RMapArr o e n   MmapRegion::get_array_ref::<T>(o, n) volatile_memory.rs:153-187: isize checks, get_slice(o, n*e)
+
+   and at guest-memory level  GuestMemory::get_slice(addr, n)  guest_memory.rs:583-587:
+                     to_region_addr(addr) (find_region, addr - start)  then  region.get_slice(off, n).      *)
+Inductive rootk :=
+| RWhole | RMapSlice (o n : N) | RRegSlice (o n : N) | RMapRef (o sz : N) | RMapArr (o esz n : N).
+
+(* MmapRegion::get_slice on region r *)
+Definition map_get_slice (r : region) (o c : N) (k : akind) : option acc :=
+  match checked_add o c with
+  | None => None
+  | Some e => if r_size r <? e then None
+              else Some {| a_off := o; a_len := c; a_bm := bm_at 0 o; a_kind := k |}
+  end.
+
+Definition root_acc (r : region) (k : rootk) : option acc :=
+  match k with
+  | RWhole => Some (root r)
+  | RMapSlice o n | RRegSlice o n => map_get_slice r o n KSlice
+  | RMapRef o sz => map_get_slice r o sz KRef
+  | RMapArr o esz n =>
+      if (ISZ_MAX <? n) || (ISZ_MAX <? n * esz) then None else map_get_slice r o (n * esz) (KArr esz n)
+  end.
+
+(* the same first accessor written as a derivation from the whole-region slice: what
+   `region.as_volatile_slice().get_slice(o, n)` etc. give; Proofs/C05Root.v: root_acc_prefix shows the two agree *)
+Definition root_prefix (k : rootk) : list dop :=
+  match k with
+  | RWhole => []
+  | RMapSlice o n | RRegSlice o n => [DSub o n]
+  | RMapRef o sz => [DGetRef o sz]
+  | RMapArr o esz n => [DGetArr o esz n]
+  end.
+
+(* extended history steps *)
+Inductive xstep :=
+| XBase (s : step)
+| XRoot (ri : nat) (k : rootk) (chain : list dop) (o : sop)   (* first accessor of region ri obtained by k *)
+| XGm (addr n : N) (chain : list dop) (o : sop)               (* first accessor = gm.get_slice(addr, n) *)
+| XRegion (ri : nat) (o : sop)                                (* Bytes<MemoryRegionAddress> for GuestRegionMmap, mmap/mod.rs:169-300:
+                                                                 every method is self.as_volatile_slice().unwrap().<same method>(addr.0 as usize, ..) *)
+| XCopyRoot (ri : nat) (k : rootk) (chain : list dop) (rj : nat) (doff dlen : N).
+                                                              (* slice-to-slice copy whose SOURCE chain starts at root k and whose destination
+                                                                 is region rj's OWN get_slice(doff, dlen) (MmapRegion::get_slice) *)
+
+Definition run_xstep (hostmod : N) (rs : list region) (x : xstep) : list region * outcome1 :=
+  match x with
+  | XBase s => run_step hostmod rs s
+  | XRoot ri k ch o =>
+      match nth_error rs ri with
+      | None => (rs, fail)
+      | Some r =>
+          match root_acc r k with
+          | None => (rs, fail)
+          | Some a0 =>
+              match derive_chain a0 ch with
+              | None => (rs, fail)
+              | Some a => let out := run_sop ri hostmod a o in (apply_effs rs (o_effs out), out)
+              end
+          end
+      end
+  | XGm addr n ch o =>
+      match find_idx rs addr 0 with
+      | None => (rs, fail)                                   (* InvalidGuestAddress *)
+      | Some (i, r) =>
+          match root_acc r (RRegSlice (addr - r_start r) n) with
+          | None => (rs, fail)
+          | Some a0 =>
+              match derive_chain a0 ch with
+              | None => (rs, fail)
+              | Some a => let out := run_sop i hostmod a o in (apply_effs rs (o_effs out), out)
+              end
+          end
+      end
+  | XRegion ri o =>
+      match nth_error rs ri with
+      | None => (rs, fail)
+      | Some r => let out := run_sop ri hostmod (root r) o in (apply_effs rs (o_effs out), out)
+      end
+  | XCopyRoot ri k ch rj doff dlen =>
+      match nth_error rs ri, nth_error rs rj with
+      | Some r, Some r2 =>
+          match root_acc r k, map_get_slice r2 doff dlen KSlice with
+          | Some a0, Some d =>
+              match derive_chain a0 ch with
+              | None => (rs, fail)
+              | Some a =>
+                  match a_kind a with
+                  | KRef => (rs, fail)
+                  | _ => if Nat.eqb ri rj && ranges_overlap (a_off a) (a_len a) (a_off d) (a_len d) then (rs, fail)
+                         else let n := N.min (a_len a) (a_len d) in
+                              let out := done n [weff rj d 0 n] in (apply_effs rs (o_effs out), out)
+                  end
+              end
+          | _, _ => (rs, fail) end
+      | _, _ => (rs, fail) end
+  end.
+
+(* the base step that does the same (Proofs/C05Root.v: run_xstep_lower); an address no region holds is
+   lowered to a step on a region index that does not exist *)
+Definition lower (rs : list region) (x : xstep) : step :=
+  match x with
+  | XBase s => s
+  | XRoot ri k ch o => SAcc ri (root_prefix k ++ ch) o
+  | XGm addr n ch o =>
+      match find_idx rs addr 0 with
+      | None => SAcc (length rs) [] o
+      | Some (i, r) => SAcc i (DSub (addr - r_start r) n :: ch) o
+      end
+  | XRegion ri o => SAcc ri [] o
+  | XCopyRoot ri k ch rj doff dlen => SCopy ri (root_prefix k ++ ch) rj doff dlen
+  end.
